@@ -215,8 +215,10 @@ def shutdown_order(ctx):
 
     r._is_shutdown.wait = wait
     r._meta_runner.stop = lambda: order.append(("stop", r._must_shutdown))
-    r.shutdown()
+    from . import rt
+    o, t = rt.blocking(r.shutdown, bound=5)  # on a runner whose accept loop is not running it returns at once
     ctx.reach()
+    ctx.require(o.kind == "return", "shutdown() of a runner that is not accepting returns", fatal=True)
     ctx.require(order == [("wait", True), ("stop", True)],
                 "shutdown requests the stop first, waits for the accept loop, then stops the runtime")
 
@@ -266,6 +268,15 @@ def _lifecycle_scenario(population):
             runner.adopt(successor_factory(1), flavour=asyncio)
         elif population == "asyncio_successor_chain":
             runner.adopt(successor_factory(3), flavour=asyncio)
+        elif population == "trio_successor":
+            async def tsucc():
+                try:
+                    await trio.sleep(3600)
+                finally:
+                    async def successor():
+                        await trio.sleep(3600)
+                    runner.adopt(successor, flavour=trio)  # hands over while the runtime is closing
+            runner.adopt(tsucc, flavour=trio)
         elif population == "trio_sleeping":
             async def tsleep():
                 await trio.sleep(3600)
@@ -303,6 +314,16 @@ def _lifecycle_scenario(population):
             out = w.join(bound=rt.BOUND)
             if out.kind == "hang":
                 problems.append("a KeyboardInterrupt raised by a payload did not end accept() within %ss" % rt.BOUND)
+        elif population == "failure_then_shutdown":
+            def fail():
+                raise KeyError("a payload fails")
+            runner.adopt(fail, flavour=threading)
+            out = w.join(bound=rt.BOUND)
+            if out.kind != "raise":
+                problems.append("accept() did not end by raising after a payload failed (%s)" % out.kind)
+            o, t = rt.blocking(runner.shutdown, bound=rt.BOUND)  # shutting down a runner that has already ended
+            if o.kind != "return":
+                problems.append("shutdown() after accept() had ended did not return within %ss (%s %r)" % (rt.BOUND, o.kind, o.exc))
         else:
             o, t = rt.blocking(runner.shutdown, bound=rt.BOUND)
             if o.kind != "return":
@@ -310,6 +331,10 @@ def _lifecycle_scenario(population):
             out = w.join(bound=5 if o.kind == "return" else 1)
             if out.kind != "return":
                 problems.append("accept() did not return normally after shutdown (%s %r)" % (out.kind, out.exc))
+            if population == "none":
+                o2, t2 = rt.blocking(runner.shutdown, bound=rt.BOUND)  # a second shutdown returns as well
+                if o2.kind != "return":
+                    problems.append("a second shutdown() did not return within %ss (%s %r)" % (rt.BOUND, o2.kind, o2.exc))
     finally:
         try:
             w.cleanup()
@@ -331,7 +356,7 @@ def _lifecycle_scenario(population):
 
 
 POPULATIONS = ("none", "asyncio_sleeping", "asyncio_successor", "asyncio_successor_chain", "trio_sleeping",
-               "thread_blocked", "thread_keyboardinterrupt", "mixed")
+               "trio_successor", "thread_blocked", "thread_keyboardinterrupt", "failure_then_shutdown", "mixed")
 
 
 def extra(tier, seed):
